@@ -4,8 +4,12 @@ import LexVerif.Proof.ParseNumberTotalMany
 # Proof.ParseNumberC11Trunc — truncation lemmas for C11 (B): no digit-separator byte, release build
 
 `trunc n b` cuts the buffer of `b` after `n` bytes. Setting: `Rel c` (release build, no "consecutive-only" separator
-flag set) and `c.bytesContiguous` (digit separator byte = 0) — this covers the build without the `format` feature and
-every `format` build whose format has no digit separator (base prefix / suffix and all syntax flags allowed).
+flag set) and `NumContig c`: the digit separator byte is 0, OR none of the integer / fraction / exponent components has
+a separator flag (a separator byte used by the special values only, or by nothing). This covers the build without the
+`format` feature and every `format` build whose format has no digit separator in numbers (base prefix / suffix and all
+syntax flags allowed). In the second case the buffer is not contiguous and `Bytes::current_count` is the sum of the
+per-component digit counts: the proofs use that every digit — also those of the 8-digit fast loop, /repo 7e8a135 — is
+counted exactly once (`*_cc` lemmas).
 Every phase of `parse_number` that returns with the cursor at `i ≤ n` returns the same result on the truncated
 buffer: bytes at positions `≥ i` are only inspected to decide to stop, and the end of the buffer leads to the same
 decision.
@@ -41,6 +45,29 @@ theorem trunc_incCount (c : Cfg) (k : Comp) (n : Nat) (b : Bytes) :
 @[simp] theorem incCount_index (c : Cfg) (k : Comp) (b : Bytes) : (b.incCount c k).index = b.index :=
   (incCount_spec c k b).2
 
+/-- `for _ in 0..n { iter.increment_count() }` (the counted multi-digit block of `try_parse_8digits`) -/
+def incFold (c : Cfg) (k : Comp) (l : List Nat) (b : Bytes) : Bytes := l.foldl (fun b _ => b.incCount c k) b
+
+theorem incFold_spec (c : Cfg) (k : Comp) : ∀ (l : List Nat) (b : Bytes),
+    (incFold c k l b).slc = b.slc ∧ (incFold c k l b).index = b.index ∧
+    ∀ n, trunc n (incFold c k l b) = incFold c k l (trunc n b) := by
+  intro l
+  induction l with
+  | nil => intro b; exact ⟨rfl, rfl, fun _ => rfl⟩
+  | cons x xs ih =>
+    intro b
+    obtain ⟨h1, h2, h3⟩ := ih (b.incCount c k)
+    simp only [incFold, List.foldl_cons] at h1 h2 h3 ⊢
+    refine ⟨by rw [h1, incCount_slc], by rw [h2, incCount_index], fun n => ?_⟩
+    rw [h3 n, trunc_incCount]
+
+@[simp] theorem incFold_slc (c : Cfg) (k : Comp) (l : List Nat) (b : Bytes) : (incFold c k l b).slc = b.slc :=
+  (incFold_spec c k l b).1
+@[simp] theorem incFold_index (c : Cfg) (k : Comp) (l : List Nat) (b : Bytes) : (incFold c k l b).index = b.index :=
+  (incFold_spec c k l b).2.1
+theorem trunc_incFold (c : Cfg) (k : Comp) (l : List Nat) (n : Nat) (b : Bytes) :
+    trunc n (incFold c k l b) = incFold c k l (trunc n b) := (incFold_spec c k l b).2.2 n
+
 theorem take_get_lt (l : List Nat) (n i : Nat) (h : i < n) : (l.take n)[i]? = l[i]? := by
   rw [List.getElem?_take]; simp [h]
 theorem take_get_ge (l : List Nat) (n i : Nat) (h : n ≤ i) : (l.take n)[i]? = none := by
@@ -69,12 +96,85 @@ theorem first_trunc (b : Bytes) (n : Nat) :
 theorem get_trunc (b : Bytes) (n : Nat) :
     (trunc n b).slc[(trunc n b).index]? = if b.index < n then b.slc[b.index]? else none := first_trunc b n
 
+/-- the integer, fraction and exponent iterators never skip: there is no digit-separator byte, or none of the three
+components has a separator flag (the special-value iterator may have one) -/
+def NumContig (c : Cfg) : Prop :=
+  c.bytesContiguous = true ∨ ∀ k, k ≠ Comp.special → c.iterContiguous k = true
+
+theorem NumContig.of_bytes {c : Cfg} (hb : c.bytesContiguous = true) : NumContig c := Or.inl hb
+
+theorem skip_of_not_any (f : SepFlags) (h : f.any = false) : f.skip = .noskip := by
+  obtain ⟨i, l, t, cc⟩ := f
+  cases i <;> cases l <;> cases t <;> cases cc <;> first | rfl | (simp [SepFlags.any] at h)
+
+@[simp] theorem trunc_currentCount (c : Cfg) (n : Nat) (b : Bytes) : (trunc n b).currentCount c = b.currentCount c := by
+  cases b; rfl
+
+theorem format_of_not_bytesContig {c : Cfg} (h : c.bytesContiguous = false) : c.feats.format = true := by
+  cases hf : c.feats.format with
+  | true => rfl
+  | false => rw [PNTotal.notFormat_bytesContig hf] at h; cases h
+
+/-- one counted digit: `step_unchecked(); increment_count()` raises `Bytes::current_count` by one (any format) -/
+theorem cc_step_inc (c : Cfg) (k : Comp) (hk : k ≠ .special) (b : Bytes) :
+    ((Bytes.at b (b.index + 1)).incCount c k).currentCount c = b.currentCount c + 1 := by
+  cases hbc : c.bytesContiguous with
+  | true => simp [Bytes.currentCount, hbc]
+  | false =>
+    have hf := format_of_not_bytesContig hbc
+    unfold Bytes.currentCount Bytes.incCount Bytes.at
+    simp only [hbc, hf, Bool.not_true, Bool.false_eq_true, if_false]
+    cases k with
+    | special => exact absurd rfl hk
+    | integer => simp only; omega
+    | fraction => simp only; omega
+    | exponent => simp only; omega
+
+/-- a counted block: `step_by_unchecked(n); for _ in 0..n { increment_count() }` raises it by `n` -/
+theorem cc_block (c : Cfg) (k : Comp) (hk : k ≠ .special) (l : List Nat) (b : Bytes) :
+    (incFold c k l (Bytes.at b (b.index + l.length))).currentCount c = b.currentCount c + l.length := by
+  cases hbc : c.bytesContiguous with
+  | true => simp [Bytes.currentCount, hbc]
+  | false =>
+    have hf := format_of_not_bytesContig hbc
+    have key : ∀ (l : List Nat) (b : Bytes), (incFold c k l b).ic + (incFold c k l b).fc + (incFold c k l b).ec =
+        b.ic + b.fc + b.ec + l.length := by
+      intro l
+      induction l with
+      | nil => intro b; rfl
+      | cons x xs ih =>
+        intro b
+        have := ih (b.incCount c k)
+        simp only [incFold, List.foldl_cons, List.length_cons] at this ⊢
+        rw [this]
+        unfold Bytes.incCount
+        simp only [hf, Bool.not_true, Bool.false_eq_true, if_false]
+        cases k with
+        | special => exact absurd rfl hk
+        | integer => simp only; omega
+        | fraction => simp only; omega
+        | exponent => simp only; omega
+    unfold Bytes.currentCount
+    simp only [hbc, Bool.false_eq_true, if_false, key]
+    rfl
+
 section
-variable {c : Cfg} (hc : Rel c) (hb : c.bytesContiguous = true)
+variable {c : Cfg} (hc : Rel c) (hb : NumContig c)
 include hc hb
 
-theorem currentCount_g (b : Bytes) : b.currentCount c = b.index := by
-  simp [Bytes.currentCount, hb]
+/-- `peek` of the integer / fraction / exponent iterator is `slc.get(index)` -/
+theorem peek_num (k : Comp) (hk : k ≠ .special) (b : Bytes) : peek c k b = .ok (b.slc[b.index]?, b) := by
+  rcases hb with hb | hi
+  · exact peek_contig hc hb k b
+  · have hik := hi k hk
+    have hs : c.skip k = .noskip := by
+      cases k with
+      | special => exact absurd rfl hk
+      | integer => exact skip_of_not_any _ (by simpa [Cfg.iterContiguous] using hik)
+      | fraction => exact skip_of_not_any _ (by simpa [Cfg.iterContiguous] using hik)
+      | exponent => exact skip_of_not_any _ (by simpa [Cfg.iterContiguous] using hik)
+    unfold peek
+    rw [hs]
 
 theorem iterStep_g (k : Comp) (b : Bytes) : iterStep c k b = .ok (Bytes.at b (b.index + 1)) := iterStep_rel hc k b
 theorem step_g (b : Bytes) : b.step c = .ok (Bytes.at b (b.index + 1)) := bstep_rel hc b
@@ -82,7 +182,7 @@ theorem stepBy_g (ct : Bool) (n : Nat) (b : Bytes) : b.stepBy c ct n = .ok (Byte
   stepBy_rel hc ct n b
 
 /-- one iteration of `parse_digits` -/
-theorem parseDigitsLoop_succ (k : Comp) (r fuel : Nat) (b : Bytes) :
+theorem parseDigitsLoop_succ (k : Comp) (hk : k ≠ .special) (r fuel : Nat) (b : Bytes) :
     parseDigitsLoop c k r (fuel + 1) b =
       match b.slc[b.index]? with
       | none => .ok ([], b)
@@ -94,7 +194,7 @@ theorem parseDigitsLoop_succ (k : Comp) (r fuel : Nat) (b : Bytes) :
           | .ok (ds, b2) => .ok (d :: ds, b2)
           | .error e => .error e := by
   rw [parseDigitsLoop]
-  simp only [peek_contig hc hb k b, bind, Except.bind, pure, Except.pure]
+  simp only [peek_num hc hb k hk b, bind, Except.bind, pure, Except.pure]
   cases b.slc[b.index]? with
   | none => rfl
   | some ch =>
@@ -107,7 +207,7 @@ theorem parseDigitsLoop_succ (k : Comp) (r fuel : Nat) (b : Bytes) :
       | error e => rfl
       | ok p => rfl
 
-theorem parseDigitsLoop_trunc (k : Comp) (r : Nat) :
+theorem parseDigitsLoop_trunc (k : Comp) (hk : k ≠ .special) (r : Nat) :
     ∀ (fuel : Nat) (b b' : Bytes) (ds : List Nat), Bytes.Valid b → parseDigitsLoop c k r fuel b = .ok (ds, b') →
       b'.slc = b.slc ∧ b.index ≤ b'.index ∧ Bytes.Valid b' ∧
       (∀ ch, b.slc[b'.index]? = some ch → charToDigit ch r = none) ∧
@@ -118,7 +218,7 @@ theorem parseDigitsLoop_trunc (k : Comp) (r : Nat) :
   | zero => intro b b' ds _ h; simp [parseDigitsLoop] at h
   | succ f ih =>
     intro b b' ds hv h
-    rw [parseDigitsLoop_succ hc hb] at h
+    rw [parseDigitsLoop_succ hc hb k hk] at h
     cases hg : b.slc[b.index]? with
     | none =>
       simp only [hg, Except.ok.injEq, Prod.mk.injEq] at h
@@ -126,7 +226,7 @@ theorem parseDigitsLoop_trunc (k : Comp) (r : Nat) :
       refine ⟨rfl, Nat.le_refl _, hv, (by intro ch hch; rw [hg] at hch; cases hch), ?_⟩
       intro n fuel2 _ hfu
       obtain ⟨f2, rfl⟩ : ∃ f2, fuel2 = f2 + 1 := ⟨fuel2 - 1, by omega⟩
-      rw [parseDigitsLoop_succ hc hb]
+      rw [parseDigitsLoop_succ hc hb k hk]
       have : (trunc n b).slc[(trunc n b).index]? = none := by
         rw [get_trunc, hg]; split <;> rfl
       rw [this]
@@ -140,7 +240,7 @@ theorem parseDigitsLoop_trunc (k : Comp) (r : Nat) :
         refine ⟨rfl, Nat.le_refl _, hv, (by intro ch2 hch; rw [hg] at hch; cases hch; exact hdg), ?_⟩
         intro n fuel2 _ hfu
         obtain ⟨f2, rfl⟩ : ∃ f2, fuel2 = f2 + 1 := ⟨fuel2 - 1, by omega⟩
-        rw [parseDigitsLoop_succ hc hb, get_trunc]
+        rw [parseDigitsLoop_succ hc hb k hk, get_trunc]
         by_cases hn : b.index < n
         · rw [if_pos hn, hg]; simp only [hdg]
         · rw [if_neg hn]
@@ -159,7 +259,7 @@ theorem parseDigitsLoop_trunc (k : Comp) (r : Nat) :
           refine ⟨e1, by omega, e3, e4, ?_⟩
           intro n fuel2 hn hfu
           obtain ⟨f2, rfl⟩ : ∃ f2, fuel2 = f2 + 1 := ⟨fuel2 - 1, by omega⟩
-          rw [parseDigitsLoop_succ hc hb, get_trunc, if_pos (by omega), hg]
+          rw [parseDigitsLoop_succ hc hb k hk, get_trunc, if_pos (by omega), hg]
           simp only [hdg]
           have := e5 n f2 hn (by simp only [incCount_index, at_index]; omega)
           rw [trunc_incCount, trunc_at] at this
@@ -173,9 +273,9 @@ def TruncOK {α : Type} (f : Bytes → Except Err (α × Bytes)) : Prop :=
     b'.slc = b.slc ∧ b.index ≤ b'.index ∧ Bytes.Valid b' ∧
     ∀ n, b'.index ≤ n → f (trunc n b) = .ok (r, trunc n b')
 
-theorem parseDigits_trunc (k : Comp) (r : Nat) : TruncOK (parseDigits c k r) := by
+theorem parseDigits_trunc (k : Comp) (hk : k ≠ .special) (r : Nat) : TruncOK (parseDigits c k r) := by
   intro b b' ds hv h
-  obtain ⟨e1, e2, e3, _, e5⟩ := parseDigitsLoop_trunc hc hb k r _ b b' ds hv h
+  obtain ⟨e1, e2, e3, _, e5⟩ := parseDigitsLoop_trunc hc hb k hk r _ b b' ds hv h
   refine ⟨e1, e2, e3, ?_⟩
   intro n hn
   unfold parseDigits
@@ -186,22 +286,62 @@ theorem parseDigits_trunc (k : Comp) (r : Nat) : TruncOK (parseDigits c k r) := 
   omega
 
 /-- the byte `parse_digits` stops at is not a digit -/
-theorem parseDigits_stop (k : Comp) (r : Nat) (b b' : Bytes) (ds : List Nat) (hv : Bytes.Valid b)
+theorem parseDigits_stop (k : Comp) (hk : k ≠ .special) (r : Nat) (b b' : Bytes) (ds : List Nat) (hv : Bytes.Valid b)
     (h : parseDigits c k r b = .ok (ds, b')) : ∀ ch, b.slc[b'.index]? = some ch → charToDigit ch r = none :=
-  (parseDigitsLoop_trunc hc hb k r _ b b' ds hv h).2.2.2.1
+  (parseDigitsLoop_trunc hc hb k hk r _ b b' ds hv h).2.2.2.1
+
+/-- `parse_digits` counts every digit it consumes: `current_count` grows exactly like the cursor -/
+theorem parseDigitsLoop_cc (k : Comp) (hk : k ≠ .special) (r : Nat) :
+    ∀ (fuel : Nat) (b b' : Bytes) (ds : List Nat), parseDigitsLoop c k r fuel b = .ok (ds, b') →
+      b'.currentCount c + b.index = b.currentCount c + b'.index := by
+  intro fuel
+  induction fuel with
+  | zero => intro b b' ds h; simp [parseDigitsLoop] at h
+  | succ f ih =>
+    intro b b' ds h
+    rw [parseDigitsLoop_succ hc hb k hk] at h
+    cases hg : b.slc[b.index]? with
+    | none =>
+      simp only [hg, Except.ok.injEq, Prod.mk.injEq] at h
+      obtain ⟨_, rfl⟩ := h
+      rfl
+    | some ch =>
+      simp only [hg] at h
+      cases hdg : charToDigit ch r with
+      | none =>
+        simp only [hdg, Except.ok.injEq, Prod.mk.injEq] at h
+        obtain ⟨_, rfl⟩ := h
+        rfl
+      | some d =>
+        simp only [hdg] at h
+        cases hrec : parseDigitsLoop c k r f ((Bytes.at b (b.index + 1)).incCount c k) with
+        | error e => simp [hrec] at h
+        | ok p =>
+          obtain ⟨ds2, b2⟩ := p
+          simp only [hrec, Except.ok.injEq, Prod.mk.injEq] at h
+          obtain ⟨_, rfl⟩ := h
+          have := ih _ _ _ hrec
+          rw [cc_step_inc c k hk] at this
+          simp only [incCount_index, at_index] at this
+          omega
+
+theorem parseDigits_cc (k : Comp) (hk : k ≠ .special) (r : Nat) (b b' : Bytes) (ds : List Nat)
+    (h : parseDigits c k r b = .ok (ds, b')) : b'.currentCount c + b.index = b.currentCount c + b'.index :=
+  parseDigitsLoop_cc hc hb k hk r _ b b' ds h
 
 theorem tryParse8_g (k : Comp) (b : Bytes) :
     tryParse8 c k b =
       if c.iterContiguous k = true ∧ b.slc.length - b.index ≥ 8 ∧ b.index ≤ b.slc.length then
         (if is8Digits c.mantissaRadix ((b.slc.drop b.index).take 8) then
-          .ok (some (val8Digits c.mantissaRadix ((b.slc.drop b.index).take 8)), Bytes.at b (b.index + 8))
+          .ok (some (val8Digits c.mantissaRadix ((b.slc.drop b.index).take 8)),
+            incFold c k (List.range 8) (Bytes.at b (b.index + 8)))
          else .ok (none, b))
       else .ok (none, b) := by
   by_cases hcnd : c.iterContiguous k = true ∧ b.slc.length - b.index ≥ 8 ∧ b.index ≤ b.slc.length
   · rw [if_pos hcnd]
     simp only [tryParse8, peekBytes, hc.hd, stepBy_g hc hb, hcnd, Bool.false_and, Bool.false_eq_true,
       if_false, Bool.true_and, Bool.and_eq_true, decide_eq_true_eq, and_self, if_true, bind, Except.bind, pure,
-      Except.pure]
+      Except.pure, incFold]
   · rw [if_neg hcnd]
     have : (c.iterContiguous k && decide (b.slc.length - b.index ≥ 8) && decide (b.index ≤ b.slc.length)) = false := by
       cases hk : c.iterContiguous k
@@ -241,9 +381,9 @@ theorem tryParse8_trunc (k : Comp) : TruncOK (tryParse8 c k) := by
     · next h8 =>
       simp only [Except.ok.injEq, Prod.mk.injEq] at h
       obtain ⟨rfl, rfl⟩ := h
-      refine ⟨rfl, by simp, by simp only [Bytes.Valid, at_index, at_slc]; omega, ?_⟩
+      refine ⟨by simp, by simp, by simp only [Bytes.Valid, incFold_index, incFold_slc, at_index, at_slc]; omega, ?_⟩
       intro n hn
-      simp only [at_index] at hn
+      simp only [incFold_index, at_index] at hn
       rw [tryParse8_g hc hb]
       have hc2 : c.iterContiguous k = true ∧ (trunc n b).slc.length - (trunc n b).index ≥ 8 ∧
           (trunc n b).index ≤ (trunc n b).slc.length := by
@@ -252,7 +392,7 @@ theorem tryParse8_trunc (k : Comp) : TruncOK (tryParse8 c k) := by
       rw [if_pos hc2]
       rw [show List.take 8 (List.drop (trunc n b).index (trunc n b).slc) = List.take 8 (List.drop b.index b.slc)
         from take8_trunc _ _ _ hn]
-      rw [if_pos h8]
+      rw [if_pos h8, trunc_incFold]
       rfl
     · next h8 =>
       simp only [Except.ok.injEq, Prod.mk.injEq] at h
@@ -262,6 +402,66 @@ theorem tryParse8_trunc (k : Comp) : TruncOK (tryParse8 c k) := by
     simp only [Except.ok.injEq, Prod.mk.injEq] at h
     obtain ⟨rfl, rfl⟩ := h
     exact ⟨rfl, Nat.le_refl _, hv, fun n hn => key n hn rfl rfl (Or.inl hcnd)⟩
+
+/-- … and so does the 8-digit fast loop (`increment_count` × 8 after `step_by_unchecked(8)`, /repo 7e8a135) -/
+theorem tryParse8_cc (k : Comp) (hk : k ≠ .special) (b b' : Bytes) (v : Option Nat)
+    (h : tryParse8 c k b = .ok (v, b')) : b'.currentCount c + b.index = b.currentCount c + b'.index := by
+  rw [tryParse8_g hc hb] at h
+  split at h
+  · split at h
+    · simp only [Except.ok.injEq, Prod.mk.injEq] at h
+      obtain ⟨_, rfl⟩ := h
+      have := cc_block c k hk (List.range 8) b
+      simp only [List.length_range] at this
+      rw [this]
+      simp only [incFold_index, at_index]
+      omega
+    · simp only [Except.ok.injEq, Prod.mk.injEq] at h
+      obtain ⟨_, rfl⟩ := h
+      rfl
+  · simp only [Except.ok.injEq, Prod.mk.injEq] at h
+    obtain ⟨_, rfl⟩ := h
+    rfl
+
+theorem parse8Loop_cc (k : Comp) (hk : k ≠ .special) :
+    ∀ (fuel : Nat) (b b' : Bytes) (m r : Nat), parse8Loop c k fuel b m = .ok (r, b') →
+      b'.currentCount c + b.index = b.currentCount c + b'.index := by
+  intro fuel
+  induction fuel with
+  | zero => intro b b' m r h; simp [parse8Loop] at h
+  | succ f ih =>
+    intro b b' m r h
+    rw [parse8Loop] at h
+    simp only [bind, Except.bind, pure, Except.pure] at h
+    cases ht : tryParse8 c k b with
+    | error e => simp [ht] at h
+    | ok p =>
+      obtain ⟨v, b1⟩ := p
+      have t := tryParse8_cc hc hb k hk b b1 v ht
+      simp only [ht] at h
+      cases v with
+      | none =>
+        simp only [Except.ok.injEq, Prod.mk.injEq] at h
+        obtain ⟨_, rfl⟩ := h
+        exact t
+      | some x =>
+        simp only at h
+        have := ih _ _ _ _ h
+        omega
+
+theorem parse8Digits_cc (k : Comp) (hk : k ≠ .special) (m : Nat) (b b' : Bytes) (r : Nat)
+    (h : parse8Digits c k b m = .ok (r, b')) : b'.currentCount c + b.index = b.currentCount c + b'.index := by
+  unfold parse8Digits at h
+  split at h
+  · simp only [pure, Except.pure, Except.ok.injEq, Prod.mk.injEq] at h
+    obtain ⟨_, rfl⟩ := h
+    rfl
+  · split at h
+    · simp only [hc.hd, Bool.false_and, Bool.false_eq_true, if_false] at h
+      exact parse8Loop_cc hc hb k hk _ b b' m r h
+    · simp only [pure, Except.pure, Except.ok.injEq, Prod.mk.injEq] at h
+      obtain ⟨_, rfl⟩ := h
+      rfl
 
 theorem parse8Loop_trunc (k : Comp) :
     ∀ (fuel : Nat) (b b' : Bytes) (m r : Nat), Bytes.Valid b → parse8Loop c k fuel b m = .ok (r, b') →
@@ -373,24 +573,24 @@ omit hc hb in
 theorem matchByte_none (v : Nat) (cased : Bool) : matchByte v cased none = false := by
   cases cased <;> simp [matchByte]
 
-theorem readIfValueCased_g (k : Comp) (v : Nat) (b : Bytes) :
+theorem readIfValueCased_g (k : Comp) (hk : k ≠ .special) (v : Nat) (b : Bytes) :
     readIfValueCased c k v b =
       .ok (if (b.slc[b.index]? == some v) = true then (true, Bytes.at b (b.index + 1)) else (false, b)) := by
   unfold readIfValueCased
-  simp only [peek_contig hc hb k b, bind, Except.bind, pure, Except.pure, iterStep_g hc hb]
+  simp only [peek_num hc hb k hk b, bind, Except.bind, pure, Except.pure, iterStep_g hc hb]
   split <;> rfl
 
-theorem readIfValue_g (k : Comp) (v : Nat) (cased : Bool) (b : Bytes) :
+theorem readIfValue_g (k : Comp) (hk : k ≠ .special) (v : Nat) (cased : Bool) (b : Bytes) :
     readIfValue c k v cased b =
       .ok (if matchByte v cased b.slc[b.index]? = true then (true, Bytes.at b (b.index + 1)) else (false, b)) := by
   unfold readIfValue
   cases cased with
   | true =>
-    simp only [if_true, readIfValueCased_g hc hb, matchByte]
+    simp only [if_true, readIfValueCased_g hc hb k hk, matchByte]
   | false =>
     simp only [Bool.false_eq_true, if_false, matchByte]
     unfold readIfValueUncased
-    simp only [peek_contig hc hb k b, bind, Except.bind, pure, Except.pure, iterStep_g hc hb]
+    simp only [peek_num hc hb k hk b, bind, Except.bind, pure, Except.pure, iterStep_g hc hb]
     cases b.slc[b.index]? with
     | none => rfl
     | some y =>
@@ -411,13 +611,13 @@ theorem prefixPhase_g (b : Bytes) :
   unfold prefixPhase
   by_cases hfmt : (c.feats.format && c.basePrefix ≠ 0) = true
   · rw [if_pos hfmt, if_pos hfmt]
-    simp only [readIfValueCased_g hc hb, bind, Except.bind]
+    simp only [readIfValueCased_g hc hb .integer (by decide), bind, Except.bind]
     by_cases h48 : (b.slc[b.index]? == some 48) = true
     · rw [if_pos h48, if_pos h48]
       have hr2 : readIfValue c .integer c.basePrefix c.caseSensitiveBasePrefix (Bytes.at b (b.index + 1)) =
           .ok (if matchByte c.basePrefix c.caseSensitiveBasePrefix b.slc[b.index + 1]? = true then
             (true, Bytes.at b (b.index + 2)) else (false, Bytes.at b (b.index + 1))) :=
-        readIfValue_g hc hb .integer _ _ (Bytes.at b (b.index + 1))
+        readIfValue_g hc hb .integer (by decide) _ _ (Bytes.at b (b.index + 1))
       simp only [if_true, hr2]
       by_cases hm : matchByte c.basePrefix c.caseSensitiveBasePrefix b.slc[b.index + 1]? = true
       · rw [if_pos hm, if_pos hm]
@@ -521,7 +721,7 @@ theorem integerPhase_trunc (b : Bytes) (ip : IntPart) (hv : Bytes.Valid b) (h : 
     ∀ n, ip.byte.index ≤ n →
       integerPhase c (trunc n b) = .ok { ip with start := trunc n ip.start, byte := trunc n ip.byte } := by
   unfold integerPhase at h
-  simp only [bind, Except.bind, pure, Except.pure, currentCount_g hc hb, ite_self] at h
+  simp only [bind, Except.bind, pure, Except.pure] at h
   cases hpp : prefixPhase c b with
   | error e => simp [hpp] at h
   | ok pp =>
@@ -533,14 +733,17 @@ theorem integerPhase_trunc (b : Bytes) (ip : IntPart) (hv : Bytes.Valid b) (h : 
     | ok p8 =>
       obtain ⟨m, b1⟩ := p8
       obtain ⟨a1, a2, a3, a4⟩ := parse8Digits_trunc hc hb .integer 0 b0 b1 m p3 h8
+      have c8 := parse8Digits_cc hc hb .integer (by decide) 0 b0 b1 m h8
       simp only [h8] at h
       cases hdg : parseDigits c .integer c.mantissaRadix b1 with
       | error e => simp [hdg] at h
       | ok pd =>
         obtain ⟨ds, b2⟩ := pd
-        obtain ⟨d1, d2, d3, d4⟩ := parseDigits_trunc hc hb .integer c.mantissaRadix b1 b2 ds a3 hdg
-        have dstop := parseDigits_stop hc hb .integer c.mantissaRadix b1 b2 ds a3 hdg
-        simp only [hdg] at h
+        obtain ⟨d1, d2, d3, d4⟩ := parseDigits_trunc hc hb .integer (by decide) c.mantissaRadix b1 b2 ds a3 hdg
+        have dstop := parseDigits_stop hc hb .integer (by decide) c.mantissaRadix b1 b2 ds a3 hdg
+        have cd := parseDigits_cc hc hb .integer (by decide) c.mantissaRadix b1 b2 ds hdg
+        have hnd : b2.currentCount c - b0.currentCount c = b2.index - b0.index := by omega
+        simp only [hdg, hnd, ite_self] at h
         split at h
         · cases h
         · next hreq =>
@@ -564,14 +767,13 @@ theorem integerPhase_trunc (b : Bytes) (ip : IntPart) (hv : Bytes.Valid b) (h : 
                   simp only [hfm, hri, Bool.and_self, Bool.true_and, decide_eq_true_eq] at hreq
                   omega
                 unfold integerPhase
-                simp only [bind, Except.bind, pure, Except.pure, currentCount_g hc hb, ite_self,
-                  p4 n (by omega) hpre]
+                simp only [bind, Except.bind, pure, Except.pure, p4 n (by omega) hpre]
                 have t1 := a4 n (by omega)
                 simp only at t1
                 rw [t1]
                 simp only
                 rw [d4 n hn]
-                simp only [trunc_index]
+                simp only [trunc_index, trunc_currentCount, hnd, ite_self]
                 split
                 · next hcnd => exact absurd hcnd hreq
                 · rw [sliceTo_trunc hc hb b0 _ n _ sl hsl (by omega)]
@@ -594,22 +796,26 @@ theorem fractionPhase_trunc (o : POpts) (b : Bytes) (m0 : Nat) (fp : FracPart) (
   · rw [if_pos hdp] at h
     have hfirst : b.first = some o.dp := by simpa [Bytes.firstIsCased] using hdp
     have hlt := first_some_lt b _ hfirst
-    simp only [step_g hc hb, bind, Except.bind, pure, Except.pure, currentCount_g hc hb, at_index, ite_self] at h
+    simp only [step_g hc hb, bind, Except.bind, pure, Except.pure] at h
     have hv0 : Bytes.Valid (Bytes.at b (b.index + 1)) := by simp only [Bytes.Valid, at_index, at_slc]; omega
     cases h8 : parse8Digits c .fraction (Bytes.at b (b.index + 1)) m0 with
     | error e => simp [h8] at h
     | ok p8 =>
       obtain ⟨m, b1⟩ := p8
       obtain ⟨a1, a2, a3, a4⟩ := parse8Digits_trunc hc hb .fraction m0 _ b1 m hv0 h8
+      have c8 := parse8Digits_cc hc hb .fraction (by decide) m0 _ b1 m h8
       simp only [h8] at h
       cases hdg : parseDigits c .fraction c.mantissaRadix b1 with
       | error e => simp [hdg] at h
       | ok pd =>
         obtain ⟨ds, b2⟩ := pd
-        obtain ⟨d1, d2, d3, d4⟩ := parseDigits_trunc hc hb .fraction c.mantissaRadix b1 b2 ds a3 hdg
-        have dstop := parseDigits_stop hc hb .fraction c.mantissaRadix b1 b2 ds a3 hdg
+        obtain ⟨d1, d2, d3, d4⟩ := parseDigits_trunc hc hb .fraction (by decide) c.mantissaRadix b1 b2 ds a3 hdg
+        have dstop := parseDigits_stop hc hb .fraction (by decide) c.mantissaRadix b1 b2 ds a3 hdg
         have hb1 : b1.slc = b.slc := by rw [a1]; rfl
-        simp only [hdg] at h
+        have cd := parseDigits_cc hc hb .fraction (by decide) c.mantissaRadix b1 b2 ds hdg
+        simp only [at_index] at a2 c8
+        have hnd : b2.currentCount c - (Bytes.at b (b.index + 1)).currentCount c = b2.index - (b.index + 1) := by omega
+        simp only [hdg, hnd, at_index, ite_self] at h
         cases hsl : sliceTo c (Bytes.at b (b.index + 1)) (b2.index - (b.index + 1))
             "fraction get_unchecked(..b_after_dot)" with
         | error e => simp [hsl] at h
@@ -624,7 +830,6 @@ theorem fractionPhase_trunc (o : POpts) (b : Bytes) (m0 : Nat) (fp : FracPart) (
             · next hreq =>
               simp only [Except.ok.injEq] at h
               subst h
-              simp only [at_index] at a2
               refine ⟨by rw [d1, hb1], by simp only; omega, d3, by simp only; omega, ?_, fun hne => absurd hdp hne, ?_⟩
               · intro _
                 refine ⟨by simp only; omega, ?_⟩
@@ -636,14 +841,13 @@ theorem fractionPhase_trunc (o : POpts) (b : Bytes) (m0 : Nat) (fp : FracPart) (
                   simp only [Bytes.firstIsCased, first_trunc, show b.index < n by omega, if_true, hfirst,
                     beq_self_eq_true]
                 rw [if_pos hf2]
-                simp only [step_g hc hb, bind, Except.bind, pure, Except.pure, currentCount_g hc hb, at_index,
-                  trunc_index, ite_self]
+                simp only [step_g hc hb, bind, Except.bind, pure, Except.pure, trunc_index]
                 have t1 := a4 n (by omega)
                 simp only at t1
                 rw [← trunc_at, t1]
                 simp only
                 rw [d4 n hn]
-                simp only [trunc_index]
+                simp only [trunc_index, trunc_currentCount, hnd, at_index, ite_self]
                 rw [sliceTo_trunc hc hb (Bytes.at b (b.index + 1)) _ n _ sl hsl (by simp only [at_index]; omega)]
                 simp only [hsc]
                 split
@@ -731,7 +935,7 @@ theorem exponentPhase_trunc (he : Bool) (b : Bytes) (fr : Option (List Nat)) (ex
       rfl
   | true =>
     have hlt := hlt rfl
-    simp only [if_true, step_g hc hb, bind, Except.bind, pure, Except.pure, currentCount_g hc hb] at h
+    simp only [if_true, step_g hc hb, bind, Except.bind, pure, Except.pure] at h
     have hv0 : Bytes.Valid (Bytes.at b (b.index + 1)) := by simp only [Bytes.Valid, at_index, at_slc]; omega
     split at h
     · cases h
@@ -749,7 +953,7 @@ theorem exponentPhase_trunc (he : Bool) (b : Bytes) (fr : Option (List Nat)) (ex
           | error e => simp [hdg] at h
           | ok pd =>
             obtain ⟨ds, b2⟩ := pd
-            obtain ⟨d1, d2, d3, d4⟩ := parseDigits_trunc hc hb .exponent c.exponentRadix b1 b2 ds a3 hdg
+            obtain ⟨d1, d2, d3, d4⟩ := parseDigits_trunc hc hb .exponent (by decide) c.exponentRadix b1 b2 ds a3 hdg
             simp only [hdg] at h
             split at h
             · cases h
@@ -761,8 +965,7 @@ theorem exponentPhase_trunc (he : Bool) (b : Bytes) (fr : Option (List Nat)) (ex
               intro n hn
               simp only at hn
               unfold exponentPhase
-              simp only [if_true, step_g hc hb, bind, Except.bind, pure, Except.pure, currentCount_g hc hb,
-                trunc_index, at_index]
+              simp only [if_true, step_g hc hb, bind, Except.bind, pure, Except.pure, trunc_index, at_index]
               rw [if_neg hnen, if_neg hnewf]
               have t1 := a4 n (by omega)
               rw [← trunc_at]
@@ -770,7 +973,7 @@ theorem exponentPhase_trunc (he : Bool) (b : Bytes) (fr : Option (List Nat)) (ex
               rw [t1]
               simp only
               rw [d4 n hn]
-              simp only [trunc_index]
+              simp only [trunc_index, trunc_currentCount]
               rw [if_neg hreq]
 
 theorem suffixPhase_trunc (b b' : Bytes) (hv : Bytes.Valid b) (h : suffixPhase c b = .ok b') :
